@@ -311,7 +311,10 @@ func minimise(t *testing.T, rf *ReplayFile, execute func(*RunSpec) (*RunReport, 
 		return
 	}
 	out := ReplayFile{Property: "C20", Spec: res, Violation: *hit, All: rep.Violations, Ref: oc.Ref, Sim: oc.Sim, Trace: oc.Trace, Minimised: true,
-		Note: fmt.Sprintf("minimised from %s to %s in %d executions", before, specSize(res), m.execs)}
+		Note: fmt.Sprintf("minimised from %s to %s in %d executions", before, specSize(res), m.execs), ResultHash: rep.ResultHash}
+	if rep.Stats != nil {
+		out.TraceHash = rep.Stats.TraceHash
+	}
 	b, _ := json.MarshalIndent(out, "", " ")
 	if err := os.WriteFile(path, b, 0o644); err != nil {
 		t.Fatal(err)
